@@ -150,7 +150,7 @@ def check(case):
             first.shex_graph(output_file=pb, string_output=fs["also_string"], acceptance_threshold=fs["earlier_thr"], output_format="Shacl")
         sh.shex_graph(output_file=pa, string_output=fs["also_string"], acceptance_threshold=thr)
         sh.shex_graph(output_file=pb, string_output=fs["also_string"], acceptance_threshold=thr, output_format="Shacl")
-        return open(pa, encoding="utf-8").read(), open(pb, encoding="utf-8").read()
+        return open(pa, encoding="utf-8", newline="").read(), open(pb, encoding="utf-8", newline="").read()
     if case.get("files"):
         with sut.tmpdir() as d:
             res, crash = sut.guarded(lambda: go_files(d), 30)
